@@ -1,10 +1,13 @@
 (* C05 - Stream writes.  Only statements, each closed by [exact] of a lemma
    proved in Proofs/StreamWriteProofs.v, with Print Assumptions beneath.
-   Model: Model/StreamWrite.v (one stream; [exec beh (init blk o sa pw) ops] runs
+   Model: Model/StreamWrite.v (one stream; [exec beh (init blk o sa pw cfg) ops] runs
    the top-level operations [ops], the k-th callback executing [beh k]; the
    write(2)/writev(2) answers are [o], shutdown(2) answers [sa], [pw] says per
    loop iteration whether the descriptor polls writable, [blk] is
-   UV_HANDLE_BLOCKING_WRITES).  [trace s] is chronological.  Request ids are
+   UV_HANDLE_BLOCKING_WRITES, [cfg] says how the stream came to be: [None] = opened
+   connected, [Some (tcp, cres, so)] = the script starts right after uv_tcp_connect /
+   uv_pipe_connect with the connect still pending - connect(2) result [cres],
+   SO_ERROR answers [so]; every theorem quantifies over it).  [trace s] is chronological.  Request ids are
    the positions of the uv_write/uv_try_write calls in call order.
    [acc t id] = bytes of request id the OS accepted; [cb_ids t] = ids of the
    write callbacks in t; [chunks]/[expand]/[bytes_of] spell out the accepted
@@ -18,8 +21,8 @@ Local Open Scope N_scope.
    sequence of operations, callback behaviours and kernel answers; for each of
    them unsent = total - accepted. *)
 Theorem C05_queue_size_exact :
-  forall beh blk o sa pw ops,
-  let s := exec beh (init blk o sa pw) ops in
+  forall beh blk o sa pw cfg ops,
+  let s := exec beh (init blk o sa pw cfg) ops in
   wqs s = sum_rem (cq s ++ wq s) /\ pq s = [] /\
   Forall (fun r => req_size r = r_total r - r_off r /\ r_off r <= r_total r) (cq s ++ wq s).
 Proof. exact queue_size_exact. Qed.
@@ -37,8 +40,8 @@ Print Assumptions C05_queue_size_exact_everywhere.
    has had its callback or is still queued (never both, never neither); a
    refused uv_write never gets a callback. *)
 Theorem C05_cb_exactly_once_in_order :
-  forall beh blk o sa pw ops,
-  let s := exec beh (init blk o sa pw) ops in
+  forall beh blk o sa pw cfg ops,
+  let s := exec beh (init blk o sa pw cfg) ops in
   StronglySorted lt (cb_ids (trace s)) /\
   (forall id, In (ERet id 0%Z) (trace s) ->
      (In id (cb_ids (trace s)) /\ ~ In id (map r_id (cq s ++ wq s))) \/
@@ -50,8 +53,8 @@ Proof. exact cb_exactly_once_in_order. Qed.
 Print Assumptions C05_cb_exactly_once_in_order.
 
 Theorem C05_status_zero_only_if_all_accepted :
-  forall beh blk o sa pw ops,
-  let s := exec beh (init blk o sa pw) ops in
+  forall beh blk o sa pw cfg ops,
+  let s := exec beh (init blk o sa pw cfg) ops in
   forall id tot q, In (EWrite id tot) (trace s) -> In (ECb id 0%Z q) (trace s) ->
   acc (trace s) id = tot.
 Proof. exact status_zero_only_if_all_accepted. Qed.
@@ -61,8 +64,8 @@ Print Assumptions C05_status_zero_only_if_all_accepted.
    every request; the prefix is everything when the callback said 0, and what
    uv_try_write returned for a try_write. *)
 Theorem C05_bytes_in_order_once :
-  forall beh blk o sa pw ops,
-  let s := exec beh (init blk o sa pw) ops in
+  forall beh blk o sa pw cfg ops,
+  let s := exec beh (init blk o sa pw cfg) ops in
   expand (chunks (trace s)) =
     flat_map (fun id => bytes_of id 0 (acc (trace s) id)) (seq 0 (next_id s)) /\
   (forall id tot, In (EWrite id tot) (trace s) -> acc (trace s) id <= tot) /\
@@ -84,8 +87,8 @@ Proof. exact try_write_never_overtakes_inv. Qed.
 Print Assumptions C05_try_write_never_overtakes.
 
 Theorem C05_try_write_never_overtakes_reachable :
-  forall beh blk o sa pw ops, Inv1 (exec beh (init blk o sa pw) ops).
-Proof. intros. exact (proj1 (final_inv beh blk o sa pw ops)). Qed.
+  forall beh blk o sa pw cfg ops, Inv1 (exec beh (init blk o sa pw cfg) ops).
+Proof. intros. exact (proj1 (final_inv beh blk o sa pw cfg ops)). Qed.
 Print Assumptions C05_try_write_never_overtakes_reachable.
 
 (* Shutdown (model of the code after the repair of uv__stream_io, which now
@@ -98,8 +101,8 @@ Print Assumptions C05_try_write_never_overtakes_reachable.
    C05_cb_exactly_once_in_order: every write accepted before uv_shutdown has had
    its callback when the shutdown callback runs. *)
 Theorem C05_shutdown_last :
-  forall beh blk o sa pw ops,
-  let s := exec beh (init blk o sa pw) ops in
+  forall beh blk o sa pw cfg ops,
+  let s := exec beh (init blk o sa pw cfg) ops in
   (forall l1 l2, trace s = l1 ++ EShut 0%Z :: l2 ->
      forall id c, In (ERet id c) l2 -> c = UV_EPIPE \/ c = UV_EBADF) /\
   (forall a l1 l2, trace s = l1 ++ ESysShut a :: l2 -> forall i off n, ~ In (EChunk i off n) l2) /\
@@ -111,37 +114,94 @@ Print Assumptions C05_shutdown_last.
 
 (* the callback-order clause on its own, and the input that refuted it before the repair *)
 Theorem C05_shutdown_cb_last :
-  forall beh blk o sa pw ops, shutdown_cb_last (trace (exec beh (init blk o sa pw) ops)).
+  forall beh blk o sa pw cfg ops, shutdown_cb_last (trace (exec beh (init blk o sa pw cfg) ops)).
 Proof. exact shutdown_cb_last_holds. Qed.
 Print Assumptions C05_shutdown_cb_last.
 
 Example C05_shutdown_last_former_witness :
-  trace (exec beh_refute (init false [] 0%Z []) [OWrite [1]; ORun; ORun]) =
+  trace (exec beh_refute (init false [] 0%Z [] None) [OWrite [1]; ORun; ORun]) =
     [EWrite 0 1; EChunk 0 0 1; ERet 0 0; EQ 0; ECb 0 0 0; EWrite 1 2; EChunk 1 0 2; ERet 1 0;
      EShut 0; ECb 1 0 0; ESysShut 0; EShutCb 0; EQ 0; EQ 0].
 Proof. vm_compute. reflexivity. Qed.
 
-(* A non-empty write queue on a stream that is not closing always has POLLOUT
-   armed or its watcher in the pending queue. *)
+(* A non-empty write queue, or a pending connect, on a stream that is not closing
+   always has POLLOUT armed or its watcher in the pending queue. *)
 Theorem C05_progress :
-  forall beh blk o sa pw ops,
-  let s := exec beh (init blk o sa pw) ops in
-  wq s <> [] -> closing s = false -> armed s = true \/ fed s = true.
+  forall beh blk o sa pw cfg ops,
+  let s := exec beh (init blk o sa pw cfg) ops in
+  wq s <> [] \/ connecting s = true -> closing s = false -> armed s = true \/ fed s = true.
 Proof. exact progress. Qed.
 Print Assumptions C05_progress.
+
+(* While a connect is pending uv_try_write returns UV_EAGAIN without a system
+   call, and uv_write only queues (no system call, POLLOUT untouched). *)
+Theorem C05_try_write_while_connecting :
+  forall s bufs, connecting s = true ->
+  api_try s bufs =
+    ev (ETryRet (next_id s) UV_EAGAIN) (ev (ETry (next_id s) (sumN bufs)) (set_next_id (S (next_id s)) s)).
+Proof. exact try_write_while_connecting. Qed.
+Print Assumptions C05_try_write_while_connecting.
+
+Theorem C05_write_while_connecting :
+  forall s bufs, connecting s = true -> check_before_write s = None ->
+  oracle (api_write s bufs) = oracle s /\ armed (api_write s bufs) = armed s /\
+  wq (api_write s bufs) = wq s ++ [mkReq (next_id s) (sumN bufs) bufs O 0 0%Z false].
+Proof. exact write_while_connecting. Qed.
+Print Assumptions C05_write_while_connecting.
+
+(* A pending uv_shutdown must keep a wake-up (else its callback never runs and the
+   loop never exits).  Refuted by the faithful model: uv_shutdown issued while the
+   connect is pending with nothing queued - uv__stream_connect stops POLLOUT
+   ("write_queue empty") and returns without uv__drain.  What is proved: an
+   accepted uv_shutdown on a stream with no connect pending leaves a wake-up;
+   with writes queued at connect completion POLLOUT stays armed (C05_progress).
+   Gap: that the wake-up persists until uv__drain on connected streams is checked
+   by the correspondence monitor (settle rule) only. *)
+Theorem C05_shutdown_progress_refuted :
+  exists beh cfg ops, ~ shutdown_progress (exec beh (init false [] 0%Z [] cfg) ops).
+Proof. exact shutdown_progress_refuted. Qed.
+Print Assumptions C05_shutdown_progress_refuted.
+
+Theorem C05_shutdown_progress_partial :
+  forall s, Prog s -> connecting s = false ->
+  writable s = true -> shut s = false -> shutreq s = false -> closing s = false -> closed s = false ->
+  shutreq (api_shutdown s) = true /\
+  (armed (api_shutdown s) = true \/ fed (api_shutdown s) = true).
+Proof. exact shutdown_progress_partial. Qed.
+Print Assumptions C05_shutdown_progress_partial.
+
+(* [Prog] holds in every state reached by [exec] *)
+Theorem C05_shutdown_progress_partial_reachable :
+  forall beh blk o sa pw cfg ops, Prog (exec beh (init blk o sa pw cfg) ops).
+Proof. intros. apply exec_prog, Prog_init. Qed.
+Print Assumptions C05_shutdown_progress_partial_reachable.
 
 (* The hypotheses are satisfiable / the statements are not vacuous: a run with a
    short write, EAGAIN, EINTR, a zero-length buffer, a queued request, a refused
    try_write and a shutdown. *)
 Example C05_example_trace :
-  let s := exec (fun _ => []) (init false [AWrote 2; AErr 11; AErr 4; AWrote 3] 0%Z [])
+  let s := exec (fun _ => []) (init false [AWrote 2; AErr 11; AErr 4; AWrote 3] 0%Z [] None)
                 [OWrite [3; 0; 2]; OWrite [4]; OTry [1]; ORun; OShutdown; ORun; ORun] in
   trace s =
     [EWrite 0 5; EChunk 0 0 2; ERet 0 0; EQ 3; EWrite 1 4; ERet 1 0; EQ 7; ETry 2 1;
      ETryRet 2 UV_EAGAIN; EQ 7; EQ 7; EShut 0; EQ 7; EChunk 0 2 3; EChunk 1 0 4; ECb 0 0 0;
      ECb 1 0 0; ESysShut 0; EShutCb 0; EQ 0; EQ 0] /\
-  (exists r, In r (wq (exec (fun _ => []) (init false [AWrote 2] 0%Z []) [OWrite [3; 0; 2]])) /\ 0 < req_size r).
+  (exists r, In r (wq (exec (fun _ => []) (init false [AWrote 2] 0%Z [] None) [OWrite [3; 0; 2]])) /\ 0 < req_size r).
 Proof.
   split. vm_compute. reflexivity.
   vm_compute. eexists. split. left. reflexivity. reflexivity.
 Qed.
+
+(* a script that starts with the connect pending: a zero-length-only write and a
+   shutdown are queued, the connect completes, then write callback, shutdown(2),
+   shutdown callback; and a refused connect cancels what was queued *)
+Example C05_example_connecting :
+  trace (exec (fun _ => []) (init false [] 0%Z [] (Some (true, Some 115%positive, [115%Z; 0%Z])))
+              [OWrite [0]; OShutdown; ORun; ORun; ORun]) =
+    [EWrite 0 0; ERet 0 0; EQ 0; EShut 0; EQ 0; EQ 0; EConnCb 0; EQ 0; EChunk 0 0 0; ECb 0 0 0;
+     ESysShut 0; EShutCb 0; EQ 0] /\
+  trace (exec (fun _ => []) (init false [] 0%Z [] (Some (true, Some 111%positive, [])))
+              [OWrite [3]; OWrite [0]; ORun]) =
+    [EWrite 0 3; ERet 0 0; EQ 3; EWrite 1 0; ERet 1 0; EQ 3; EConnCb (-111); ECb 0 UV_ECANCELED 0;
+     ECb 1 UV_ECANCELED 0; EQ 0].
+Proof. split; vm_compute; reflexivity. Qed.
